@@ -67,8 +67,9 @@ vars == <<retries, negAtt, pc, sp, nPause, negLeft, hasSL, hUp, hDown, frame, re
 
 Outcomes == {"A", "U", "L"}
 NullFrame == <<255>>
-UpPk(i) == <<60 + (i % 2), i>>          \* port 3 / channel 0|1, header bits 2,3 set as CRTPPacket does
-DnPk(j) == <<80 + (j % 2), 100 + j>>    \* port 5
+\* port 3 / channel 0|1, header bits 2,3 set as CRTPPacket does; the second packet each way has no data bytes
+UpPk(i) == IF i = 2 THEN <<62>> ELSE <<60 + (i % 2), i>>
+DnPk(j) == IF j = 2 THEN <<82>> ELSE <<80 + (j % 2), 100 + j>>    \* port 5
 
 H0(mode) == [acc |-> <<>>, cf |-> <<>>, cfq |-> <<>>, got |-> <<>>, link |-> <<>>,
              echo |-> FALSE, conf |-> FALSE, slUsed |-> FALSE, nrFalse |-> FALSE, peerSL |-> (mode = "sl"),
